@@ -191,3 +191,20 @@ META["C11"] = {
     "note": "Trusts the harness' reading of the AMP cache URL specification and the recording RoundTripper standing in for the network.",
     "technique": "property-based testing (rapid): round-trip, reference-model, differential (AMP vs POST endpoint) and metamorphic (fronting) oracles",
 }
+
+PROPS["C04"] = {
+    "rule": ("c04_herds: histories of 1-3 groups of 1-8 proxy polls (any NAT/type/door, scripted answer: prompt, after d, "
+             "exactly around the 10 s client timeout, never, for a wrong id) followed by 1-8 client polls (all four doors) either "
+             "inside the poll window or at poll time + 10 s + {-1 ns, 0, +1 ns}, plus stray /answer requests; run on a fake "
+             "clock (testing/synctest) so that timers tie exactly, each case repeated 6 (quick) / 20 (thorough) times to "
+             "sample interleavings at the tie. Oracle: 60 fake seconds after the last event every request has returned, each "
+             "within 12 fake seconds; then /debug reports 0, gauges sum to 0, heaps and id map are empty and a fresh client of "
+             "each NAT type is told 'no proxies'. Non-trivial = a case with events tied at a timer instant."),
+    "assumptions": ["the route table of the harness mux mirrors main()", "interleavings at a tie are sampled by repetition on the available cores, not enumerated"],
+    "units": [U("c04_herds", "inpkg", "broker", "^TestVerifC04Herds$", (250, 4000), timeout=(300, 3000), wedge_is_violation=True)],
+}
+META["C04"] = {
+    "level": "Sampled exploration of schedules on a harness-owned clock: timer ties are constructed exactly (not hoped for), the bound is exact in fake time, and 'no ghost' is checked on internal state and through the public endpoints.",
+    "note": "Trusts testing/synctest's fake clock; a lock-held deadlock freezes the fake clock and is caught by the real-time watchdog (test time-out + solitary re-run of the journalled case).",
+    "technique": "property-based testing (rapid) of generated timed histories on a fake clock (testing/synctest), invariant over the recorded history",
+}
